@@ -2,6 +2,7 @@ package main
 
 import (
 	"go/ast"
+	"go/token"
 	"go/types"
 )
 
@@ -21,6 +22,16 @@ func init() {
 				if fd.Body == nil {
 					return
 				}
+				defs := localDefs(info, fd.Body)
+				// procOf: the process an expression names, as text — a local defined once stands for its
+				// definition (proc := fork.Process), and the embedded `.Process` of a fork is the fork's process
+				procOf := func(e ast.Expr) string {
+					s := c.src(resolvePath(defs, info, e))
+					if len(s) > 8 && s[len(s)-8:] == ".Process" {
+						s = s[:len(s)-8]
+					}
+					return s
+				}
 				ast.Inspect(fd.Body, func(nd ast.Node) bool {
 					as, ok := nd.(*ast.AssignStmt)
 					if !ok || len(as.Lhs) != len(as.Rhs) {
@@ -37,7 +48,7 @@ func init() {
 						}
 						n++
 						key := "store@" + funcKey(relPkg(pk.PkgPath), fd) + "#" + itoa(n)
-						r := unparen(as.Rhs[i])
+						r := defs.resolve1(info, as.Rhs[i]) // the table kept in a local defined once
 						okStore, why := false, ""
 						switch x := r.(type) {
 						case *ast.SelectorExpr:
@@ -47,9 +58,9 @@ func init() {
 						case *ast.CallExpr:
 							if fn, isF := callee(info, x).(*types.Func); isF && fn.Name() == "NewVariables" && fn.Pkg() != nil && fn.Pkg().Path() == mx("lang") && len(x.Args) == 1 {
 								// the argument is the process stored into: <base> or <base>.Process
-								base := c.src(se.X)
-								arg := c.src(x.Args[0])
-								if arg == base || arg == base+".Process" || base == arg+".Process" {
+								base := procOf(se.X)
+								arg := procOf(x.Args[0])
+								if arg == base {
 									okStore, why = true, "fresh table for "+arg
 								} else {
 									why = "NewVariables(" + arg + ") is stored into " + base
@@ -66,7 +77,7 @@ func init() {
 				})
 			})
 		}
-		c.MinCount("R11g", "stores to Process.Variables", n, 4)
+		c.MinCount("R11g", "stores to Process.Variables", n, 4) // 8 on the pinned tree; Fork alone may legitimately hoist its three `= p.Variables` stores into one
 
 		// NewVariables is fresh
 		fd, pk := c.MustFunc("R11g", "lang", "", "NewVariables")
@@ -74,6 +85,34 @@ func init() {
 			return
 		}
 		info := pk.TypesInfo
+		ndefs := localDefs(info, fd.Body)
+		isMake := func(e ast.Expr) bool {
+			call, ok := isBuiltinCall(info, ndefs.resolve1(info, e), "make")
+			if !ok || len(call.Args) < 1 {
+				return false
+			}
+			_, isMap := info.TypeOf(call).Underlying().(*types.Map)
+			return isMap
+		}
+		// litTable: &T{… vars: make(map…) …} — allocated here, and whether its table is made here too
+		litTable := func(e ast.Expr) (isLit, made bool) {
+			u, ok := unparen(e).(*ast.UnaryExpr)
+			if !ok || u.Op != token.AND {
+				return false, false
+			}
+			cl, ok := unparen(u.X).(*ast.CompositeLit)
+			if !ok {
+				return false, false
+			}
+			for _, el := range cl.Elts {
+				if kv, ok := el.(*ast.KeyValueExpr); ok {
+					if k, ok := kv.Key.(*ast.Ident); ok && k.Name == "vars" && isMake(kv.Value) {
+						made = true
+					}
+				}
+			}
+			return true, made
+		}
 		fresh := map[types.Object]bool{}
 		madeMap := map[types.Object]bool{}
 		ast.Inspect(fd.Body, func(nd ast.Node) bool {
@@ -87,16 +126,20 @@ func init() {
 					if _, isNew := isBuiltinCall(info, r, "new"); isNew {
 						fresh[info.ObjectOf(id)] = true
 					}
-					if u, isU := r.(*ast.UnaryExpr); isU {
-						if _, isLit := unparen(u.X).(*ast.CompositeLit); isLit {
-							fresh[info.ObjectOf(id)] = true
+					if isLit, made := litTable(r); isLit {
+						fresh[info.ObjectOf(id)] = true
+						if made {
+							madeMap[info.ObjectOf(id)] = true
 						}
 					}
 				}
 				if se, ok := unparen(l).(*ast.SelectorExpr); ok && se.Sel.Name == "vars" {
 					if id, ok := unparen(se.X).(*ast.Ident); ok {
-						if call, isMake := isBuiltinCall(info, r, "make"); isMake && len(call.Args) >= 1 {
+						if isMake(r) {
 							madeMap[info.ObjectOf(id)] = true
+						} else {
+							delete(madeMap, info.ObjectOf(id))
+							fresh[info.ObjectOf(id)] = false // a table from elsewhere was put in
 						}
 					}
 				}
@@ -110,12 +153,50 @@ func init() {
 				return true
 			}
 			nRet++
+			if isLit, made := litTable(rs.Results[0]); isLit && made {
+				return true // return &Variables{vars: make(…), …}
+			}
 			id, ok := unparen(rs.Results[0]).(*ast.Ident)
-			if !ok || !fresh[info.ObjectOf(id)] || !madeMap[info.ObjectOf(id)] {
+			if !ok || !fresh[info.ObjectOf(id)] || !madeMap[info.ObjectOf(id)] || len(ndefs[info.ObjectOf(id)]) != 1 {
 				bad = c.src(rs)
 			}
 			return true
 		})
 		c.Check(nRet > 0 && bad == "", "R11g", "NewVariables:fresh", fd.Pos(), "every return of NewVariables hands out an object allocated in this call with a freshly made table (offending return: %q) — otherwise tables are reused between scopes", bad)
 	})
+}
+
+// resolvePath: like defs.resolve1, but a local is only replaced by its single definition when that
+// definition is itself a pure path (identifier / field selection, e.g. `proc := fork.Process`) — a local
+// defined by a call (`fork := new(Fork)`) stays what it is: the name of that object.
+func resolvePath(defs defMap, info *types.Info, e ast.Expr) ast.Expr {
+	e = unparen(e)
+	for i := 0; i < 4; i++ {
+		id, ok := e.(*ast.Ident)
+		if !ok {
+			return e
+		}
+		ds := defs[info.ObjectOf(id)]
+		if len(ds) != 1 || ds[0] == nil {
+			return e
+		}
+		d := unparen(ds[0])
+		pure := true
+		for x := d; ; {
+			switch y := x.(type) {
+			case *ast.Ident:
+			case *ast.SelectorExpr:
+				x = unparen(y.X)
+				continue
+			default:
+				pure = false
+			}
+			break
+		}
+		if !pure {
+			return e
+		}
+		e = d
+	}
+	return e
 }
